@@ -312,8 +312,8 @@ pub uninterp spec fn spec_varint_%(ty)s(s: Seq<u8>) -> %(ty)s;
 ''' % dict(scope=TRAIT_SCOPE, ty=ty, sz=sz, o=o))
     for ty, n in RD_VARINT:
         parts.append('''
-//@@fn file=allocator.rs src=expanded scope="%(scope)s" name=get_%(ty)s_varint xlate=plain props=C15
-//@subst /let buf = unsafe \\{\\s*let ptr = self\\.get_pointer\\((.+?)\\);\\s*let gap = (.+?);\\s*core::slice::from_raw_parts\\(ptr, gap\\)\\s*\\}\\s*;/ => let gap = \\2; let buf = self.mem_read(\\1, gap);
+//@@fn file=allocator.rs src=expanded scope="%(scope)s" name=get_%(ty)s_varint xlate=plain slices=1 props=C15
+//@subst? /let buf = unsafe \\{\\s*let ptr = self\\.get_pointer\\((.+?)\\);\\s*let gap = (.+?);\\s*core::slice::from_raw_parts\\(ptr, gap\\)\\s*\\}\\s*;/ => let gap = \\2; let buf = self.mem_read(\\1, gap);
 //@subst /dbutils::leb128::decode_%(ty)s_varint\\(buf\\)\\.map_err\\(Into::into\\)/ => decode_varint_%(ty)s(buf)
 //@contract
   requires self.inv(),
@@ -321,8 +321,6 @@ pub uninterp spec fn spec_varint_%(ty)s(s: Seq<u8>) -> %(ty)s;
     offset >= self.allocated ==> r matches Err(Error::OutOfBounds { .. }), // [C15]
     r matches Ok(p) ==> offset as int + p.0 as int <= self.allocated as int && p.0 <= %(n)d
       && p.1 == spec_varint_%(ty)s(self.mem@.subrange(offset as int, offset as int + min_int(self.allocated as int - offset as int, %(n)d)).subrange(0, p.0 as int)), // [C15]
-//@after 1 /let buf = self\\.mem_read/
-    let ghost gapv = gap;
 //@@end
 ''' % dict(scope=TRAIT_SCOPE, ty=ty, n=n))
     with open(os.path.join(UNITS, 'U_readers.fns.tpl')) as f:
